@@ -348,3 +348,80 @@ def o14_5_confirm(v, out):
     cross data-block and filter-range boundaries); every version is looked up with its own sequence bound."""
     if out.get('_rc') != 0: return (False, 'native run failed: %s' % out.get('_stderr', '')[-300:])
     return (out.get('missing', '0') != '0', 'native sweep: %s stored versions reported absent or wrong (first: %s)' % (out.get('missing'), out.get('first_missing')))
+
+
+def o14_6_filter_keys(mir, tier):
+    """FilterBlockBuilder: keys added with add_key (free lengths, the empty key included, equal neighbours allowed) are ALL handed to
+    FilterPolicy::create_filter, in order, by the next generate_filter (reached through notify_new_data_block crossing a filter
+    range, or through finalize); afterwards nothing is pending.  Byte strings are (length, content id) pairs compared by both."""
+    add = mir.method('FilterBlockBuilder', 'add_key'); notify = mir.method('FilterBlockBuilder', 'notify_new_data_block'); fin = mir.method('FilterBlockBuilder', 'finalize')
+    N = 2 if tier == 'quick' else 3
+    res = Result('O14.6 FilterBlockBuilder hands every added key to the filter policy', [add.path, notify.path, fin.path, 'FilterBlockBuilder::generate_filter (inlined)'],
+                 '1..%d keys with free lengths (0 allowed) and contents (equal neighbours allowed); flush through notify_new_data_block(2048) or finalize' % N)
+    t0 = time.time()
+    for n in range(1, N + 1):
+        for how in ('notify', 'finalize'):
+            S = lib.std_summaries(); P = S['$patterns']
+            keys = [{'len': BitVec('klen%d' % i, 64), 'sym': BitVec('kid%d' % i, 16), 'kind': 'key'} for i in range(n)]
+            pre = [ULT(k['len'], bv(64)) for k in keys] + [Implies(k['len'] == 0, k['sym'] == 0) for k in keys]
+            def P_(se, env, v):
+                v = se.deref(env, v) if isinstance(v, Ref) else v
+                while isinstance(v, Ref): v = se.deref(env, v)
+                return v
+            def beq(neg):
+                def f(se, env, pc, a, b):
+                    x, y = P_(se, env, a), P_(se, env, b)
+                    if not (isinstance(x, dict) and isinstance(y, dict) and 'sym' in x and 'sym' in y): raise Inconclusive('byte-string comparison of %r and %r' % (x, y))
+                    e = And(x['len'] == y['len'], x['sym'] == y['sym'])
+                    return lib.one(env, Not(e) if neg else e)
+                return f
+            for ty in (r'\[u8\]', r'Vec<u8>', r'&\[u8\]', r'&Vec<u8>', r'&&\[u8\]'):
+                P[r'<%s as PartialEq(?:<.*>)?>::eq' % ty] = beq(False); P[r'<%s as PartialEq(?:<.*>)?>::ne' % ty] = beq(True)
+            P[r'<&\[u8\] as Default>::default'] = lambda se, env, pc: lib.one(env, {'len': bv(0), 'sym': BitVecVal(0, 16), 'kind': 'key'})
+            P[r'<&\[.*\] as Default>::default'] = P[r'<&\[u8\] as Default>::default']
+            P[r'Vec::is_empty'] = lambda se, env, pc, r: lib.one(env, (P_(se, env, r)['len'] == 0) if isinstance(P_(se, env, r), dict) else BoolVal(len(P_(se, env, r)) == 0))
+            P[r'Vec::len'] = lambda se, env, pc, r: lib.one(env, P_(se, env, r)['len'] if isinstance(P_(se, env, r), dict) else bv(len(P_(se, env, r))))
+            P[r'core::slice::<impl \[.*\]>::is_empty'] = P[r'Vec::is_empty']; P[r'core::slice::<impl \[.*\]>::len'] = P[r'Vec::len']
+            def create(se, env, pc, pol, ks):
+                lst = P_(se, env, ks)
+                st = dict(env['$state']); st['filters'] = st['filters'] + [[P_(se, env, x) for x in lst]]
+                return [(None, {'len': BitVec('flen%d' % len(st['filters']), 64), 'kind': 'filter', 'off': bv(0)}, st)]
+            P[r'<dyn FilterPolicy as FilterPolicy>::create_filter'] = create
+            P[r'<Arc<dyn FilterPolicy> as Deref>::deref'] = lib.ident
+            P[r'<u32 as FixedInt>::encode_fixed_vec'] = lambda se, env, pc, x: lib.one(env, [])
+            P[r'Vec::append'] = lib.unit; P[r'Vec::extend_from_slice'] = lib.unit; P[r'Vec::with_capacity'] = lambda se, env, pc, n: lib.one(env, [])
+            ex = Exec(mir, S, loop_bound=n + 6, opaque_calls_ok=True)
+            ff = mir.struct_fields('FilterBlockBuilder')
+            def run_adds(i, env, pc, ex=ex, keys=keys, n=n, how=how):
+                if i == n:
+                    if how == 'notify': return ex.run_fn(notify, [Ref('$fb'), bv(2048)], env, pc, done)
+                    return ex.run_fn(fin, [Ref('$fb')], env, pc, done)
+                ex.run_fn(add, [Ref('$fb'), keys[i]], env, pc, lambda r, e2, p2: run_adds(i + 1, e2, p2))
+            def done(ret, env, pc, ex=ex, keys=keys, n=n, how=how):
+                fl = env['$state']['filters']; fb = ex.deref(env, Ref('$fb'))
+                got = [k for f in fl for k in f]
+                posts = [('a key added to the filter block builder is not handed to the filter policy (lookups of that key will be answered "not in this table")',
+                          And(BoolVal(len(got) == n), *[And(got[i]['len'] == keys[i]['len'], got[i]['sym'] == keys[i]['sym']) for i in range(min(n, len(got)))])),
+                         ('keys are still pending after the filter was generated', BoolVal(len(lib.the_list(ex, env, Ref('$fb', (ff.index('keys'),)))) == 0))]
+                res.cases['%d keys, %s -> %d filter(s) over %s keys' % (n, how, len(fl), [len(f) for f in fl])] = 1
+                for label, post, m in ex.check_posts(posts, pc):
+                    res.violations.append({'label': label, 'keys': n, 'lengths': [mval(m, k['len']) for k in keys], 'equal_neighbours': [mval(m, And(keys[i]['len'] == keys[i + 1]['len'], keys[i]['sym'] == keys[i + 1]['sym'])) for i in range(n - 1)],
+                                           'replay': ['table_edge_keys']})
+            fb = mir.mk_struct('FilterBlockBuilder', filter_policy={'abstract': True, '__ty': 'policy'}, keys=[], filters=[])
+            env = {'$state': {'filters': []}, '$fb': fb}
+            ex.solver.push(); ex.solver.add(*pre)
+            try: run_adds(0, env, list(pre))
+            finally: ex.solver.pop()
+            res.absorb(ex)
+            for pcx, msg, where in ex.panics:
+                res.panic_paths += 1; res.violations.append({'label': 'panic path: ' + msg[:80], 'replay': None, 'confirmed_by': {'reproduced': False, 'detail': 'no native scenario'}})
+    res.wall_s = time.time() - t0
+    if res.violations: res.status = 'violation'
+    return res
+
+
+def o14_6_confirm(v, out):
+    """Native: tables with the empty user key, one-byte keys, repeated user keys and 0xff keys, block sizes 64 / 256 / 4096; every
+    stored entry is looked up through Table::get (filter on)."""
+    if out.get('_rc') != 0: return (False, 'native run failed: %s' % out.get('_stderr', '')[-300:])
+    return (out.get('missing', '0') != '0', 'native: %s stored entries reported absent (first: %s)' % (out.get('missing'), out.get('first_missing')))
